@@ -235,7 +235,7 @@ def main():
             t1 = time.time()
             flags = '-g -fsanitize=address,undefined,float-cast-overflow -fno-sanitize-recover=all -D_GLIBCXX_DEBUG' + (' -DVERIF_MPI' if use_mpi else '')      # (libstdc++ debug mode: operator[] / front() / back() out of range and invalidated iterators abort)
             san = tie.cxx_build(flags, 'asan-mpi' if use_mpi else 'asan')
-            env = dict(os.environ); env['ASAN_OPTIONS'] = 'detect_leaks=0'; env['VERIF_TMP'] = os.path.join(BUILD, 'tmp')
+            env = dict(os.environ); env['ASAN_OPTIONS'] = 'detect_leaks=0:allocator_may_return_null=1'; env['VERIF_TMP'] = os.path.join(BUILD, 'tmp')      # (a garbage count read from an unreadable text must throw bad_alloc as in the ordinary build, not abort)
             san_cases = list(cases)
             if a.tier != 'thorough' and len(san_cases) > 160:
                 rng3 = random.Random(seed * 104729 + int(pid[1:])); san_cases = rng3.sample(san_cases, 160)
